@@ -116,10 +116,13 @@ PROPS = {
         "monitor": monitors.c04_c06,
     },
     "C07": {
-        "level_text": "withdraw_exact, withdraw_refused_or_failed_no_effect, withdraw_conserves, never_twice and racing_withdrawals (any sequence of attempts — the service serialises withdrawals) are Lean theorems about Pool.Withdraw including the settlement handler's effect on the deposit; compared with the real PaymentService over a scripted settlement handler and deposit oracle on both drivers.",
+        "level_text": "withdraw_exact, withdraw_refused_or_failed_no_effect, withdraw_conserves, never_twice and racing_withdrawals (any sequence of attempts — the service serialises withdrawals) are Lean theorems about Pool.Withdraw including the settlement handler's effect on the deposit; compared with the real PaymentService over a scripted settlement handler and deposit oracle on both drivers (also with the deposit lookup failing during a withdrawal). Props/C07C: the deposit cache in front of the contract serves a still-valid entry or what the contract answers now, never an expired entry (get_answer, get_fails_iff, expired_and_failing_lookup_fails, set_then_get) - model Model/Cache.lean compared with the real balanceCache under an injected clock.",
         "level_note": POOL_NOTE + " The on-chain contract is a parameter (settlement outcome ok/fail, deposit set to the new balance on success).",
-        "lean_modules": ["Vipnode.Props.C07"],
-        "streams": pool_streams(150, 2000, gen="pool-money", prefix="money") + conc_streams(8, 120),
+        "lean_modules": ["Vipnode.Props.C07", "Vipnode.Props.C07C"],
+        "streams": pool_streams(150, 2000, gen="pool-money", prefix="money") + conc_streams(8, 120) + [
+            # the deposit cache in front of the contract, under an injected clock and a scripted lookup
+            {"name": "deposit-cache", "component": "cache", "cases": {"quick": 60, "thorough": 1500}},
+        ],
         "monitor": monitors.c07_withdraw,
         "race": True,
     },
